@@ -183,4 +183,12 @@ def copyMem (p n : Nat) : Prog Out := do
   | some 0 => pure .null
   | some q => pure (.val (← readBytes q n))
 
+/-- `arr[idx]` on a fixed-size array of `n` elements of `elSize` bytes whose index is an `int` that lives in sandbox
+memory at offset `c` (a `tainted_volatile<int>`): the index is loaded ONCE; that one value is checked and, if
+accepted, designates the element (result: byte offset from the array start). -/
+def idxVol (c n elSize : Nat) : Prog Out := do
+  let bs ← readBytes c 4
+  let v := decodeLE bs
+  if v ≥ 2147483648 ∨ v ≥ n then pure .abort else pure (.addr (v * elSize))   -- (≥ 2^31: a negative int)
+
 end Rlbox.Snap
